@@ -179,13 +179,22 @@ def replay_c01(d, case):
     from amr_kitchen import PlotfileCooker
     if 'schedule' in case.get('signature', ''):
         reversed_completion_pool()
-    pck = PlotfileCooker(os.path.join(d, 'plt'))
     env = {'np': np}
+    # first the call on its own (fresh reader); only if that shows nothing, in the sweep's order (the calls the sweep made
+    # before on the same reader, each of which may start a process pool): a failure that needs the earlier calls is a
+    # failure of the code all the same
+    bad, msg = _replay_c01_once(d, case, env, prefix=False)
+    if bad or not case.get('prefix'):
+        return bad, msg
+    return _replay_c01_once(d, case, env, prefix=True)
+
+
+def _replay_c01_once(d, case, env, prefix):
+    from amr_kitchen import PlotfileCooker
+    pck = PlotfileCooker(os.path.join(d, 'plt'))
     fsel, lv, bsel = (eval(e, env) for e in case['call'])
     exp = case['expected']
-    if case.get('prefix'):
-        # first the call on its own (fresh reader), then in the sweep's order: a failure that needs the earlier calls is
-        # a failure of the code all the same, it is reported with that note
+    if prefix:
         for f_, l_, b_ in case['prefix']:
             try:
                 pck[eval(f_, env)][eval(l_, env)][eval(b_, env)]
